@@ -50,6 +50,12 @@ namespace nmtools::index
                 success = static_cast<bool>(normalized_axis);
             }
 
+            // a list of shifts is applied element-wise to the list of axes (index::roll reads shift[i] for axis[i]):
+            // report lists of different length as invalid instead of reading past the shorter one
+            if constexpr (meta::is_index_array_v<axis_t> && meta::is_index_array_v<shift_t>) {
+                success = success && ((nm_size_t)len(shift) == (nm_size_t)len(axis));
+            }
+
             if constexpr (meta::is_maybe_v<return_t>) {
                 if (success) {
                     return return_t{result};
